@@ -325,7 +325,8 @@ func checkC05(c *Ctx) {
 	pinned := []struct{ sig, src string }{
 		{"loop-variable-visibility-after-loop", "i = 100; for i = 3 {}; println(i)"},
 		{"loop-variable-visibility-after-loop", "for j = 3 {}; println(catch(j).err)"},
-		{"loop-variable-visibility-after-loop", "f = func() {i}; for i = 3 {println(catch(f()).err)}"},
+		{"loop-variable-invisible-to-callees-during-loop", "f = func() {i}; for i = 3 {println(catch(f()).err)}"},
+		{"loop-variable-invisible-to-callees-during-loop", "g = func() {f = func() {k}; for k = 2 {println(catch(f()).err)}}; g()"},
 	}
 	for _, p := range pinned {
 		a, _ := runHistory([]string{p.src}, RunOpt{})
